@@ -44,6 +44,26 @@ Theorem C12_history_checker_with_vote_store_sound :
 Proof. exact Pb_history12_sound. Qed.
 Print Assumptions C12_history_checker_with_vote_store_sound.
 
+(** Histories in which the oracle parameters are EDITED between steps (also to the zero values accepted by
+    Params.Validate): every step — a slash-window end judging counters collected under earlier parameters
+    included — satisfies the per-step property under the parameters in force when it runs. *)
+Theorem C12_history_with_param_edits_holds :
+  forall ops s e0, inv (h12_os s) -> Forall (fun x => wf_op (snd x)) ops ->
+  P_history12v (obs_of (h12_os s) e0) (h12_store s) (run_obs12v true s ops).
+Proof. exact history12v_P. Qed.
+Print Assumptions C12_history_with_param_edits_holds.
+
+Theorem C12_module_solvent_with_param_edits :
+  forall ops s, inv (h12_os s) -> Forall (fun x => wf_op (snd x)) ops ->
+  Forall (fun x => so_panic (snd (fst x)) = false -> solvent (snd (fst x))) (run_obs12v true s ops).
+Proof. exact history12v_solvent. Qed.
+Print Assumptions C12_module_solvent_with_param_edits.
+
+Theorem C12_history_checker_with_param_edits_sound :
+  forall l prev cast, Pb_history12v prev cast l = true -> P_history12v prev cast l.
+Proof. exact Pb_history12v_sound. Qed.
+Print Assumptions C12_history_checker_with_param_edits_sound.
+
 Theorem C12_empty_state_satisfies_invariant : inv (mkOS [] [] []).
 Proof. exact inv_empty. Qed.
 Print Assumptions C12_empty_state_satisfies_invariant.
